@@ -18,7 +18,8 @@ Open Scope Z_scope.
 
 Inductive obs := OLen (x : ident)        (* mon.write(len(x)) *)
                | OFlash (x : ident)      (* led.flash_pattern(x) *)
-               | OGlyph (e : pexpr).     (* lcd.glyph(slot, e): the eight rows, int(entry) each (tagged as a tuple) *)
+               | OGlyph (e : pexpr)      (* lcd.glyph(slot, e): the eight rows, int(entry) each (tagged as a tuple) *)
+               | OVal (x : ident).       (* mon.write(x) / sleep(x): the run-time value of a variable (never folded) *)
 
 Inductive stmt :=
 | SAssign (x : ident) (e : pexpr)        (* x = e *)
@@ -28,7 +29,8 @@ Inductive stmt :=
 | SEmit (v : pval)                       (* residual only: a constant baked into the firmware is output *)
 | SIf (body orelse : list stmt)          (* if <run-time condition>: body else: orelse *)
 | SWhile (body : list stmt)              (* while <run-time condition>: body *)
-| SFor (x : ident) (body : list stmt).   (* for x in range(<run-time count>): body *)
+| SFor (x : ident) (body : list stmt)    (* for x in range(<run-time count>): body *)
+| SAug (x : ident) (op : binop) (e : pexpr).   (* x op= e *)
 
 (* ------------------------------------------------------------------ *)
 (* run time (reference): names -> values; the oracle decides branches and iteration counts *)
@@ -55,6 +57,7 @@ Definition robs (o : obs) (rho : env) : option pval :=
                     | Some zs => if Nat.eqb (length zs) 8 then Some (VTuple (map VInt zs)) else None
                     | None => None end
                 | _ => None end
+  | OVal x => lookup x rho
   end.
 
 Definition rsimple (s : stmt) (rho : env) : option (env * list pval) :=
@@ -71,6 +74,7 @@ Definition rsimple (s : stmt) (rho : env) : option (env * list pval) :=
       | _, _ => None end
   | SObs o => match robs o rho with Some v => Some (rho, [v]) | None => None end
   | SEmit v => Some (rho, [v])
+  | SAug x op e => match peval rho (EBin op (EName x) e) with Ok v => Some ((x, v) :: rho, []) | Err _ => None end
   | _ => None
   end.
 
@@ -161,7 +165,7 @@ Definition known (x : ident) (te : tenv) : bool :=
 Fixpoint writes (s : stmt) : list ident :=
   let fix ws (b : list stmt) : list ident := match b with [] => [] | s :: r => writes s ++ ws r end in
   match s with
-  | SAssign x _ | SAppend x _ | SRemove x _ => [x]
+  | SAssign x _ | SAppend x _ | SRemove x _ | SAug x _ _ => [x]
   | SObs _ | SEmit _ => []
   | SIf a b => ws a ++ ws b
   | SWhile a => ws a
@@ -242,7 +246,9 @@ Definition tsimple (s : stmt) (te : tenv) (st : store) : tres :=
       | Folded zs => Some (te, st, [SEmit (VTuple (map VInt zs))], in_guard c e)
       | _ => None                       (* "glyph bitmap must be a list of integers" / "must contain 8 rows" *)
       end
+  | SObs (OVal _) => Some (te, st, [s], true)      (* _to_c_expr(name) = the C variable: read at run time *)
   | SEmit _ => Some (te, st, [s], false)
+  | SAug x _ _ => Some ((x, TMark) :: te, st, [s], true)   (* vars[x] = _ExprStr(x): forgotten; never declares *)
   | _ => None
   end.
 
@@ -305,3 +311,65 @@ Definition python_outputs (p : list stmt) (orc : list nat) : option (list pval) 
   match rblock p orc [] with Some (_, out, _) => Some out | None => None end.
 Definition is_fresh (p : list stmt) : bool :=
   match tblock p [] [] with Some (_, _, _, f) => f | None => false end.
+
+(* ------------------------------------------------------------------ *)
+(* module level (scope = setup, depth = 0): static global initialisers vs run-time assignments
+   (_handle_assignment_ast: `if is_global_scope: if not is_const or expr_uses_names: default + run-time assign`).
+   The first assignment of a name at module level declares a C++ global.  Its initialiser is the translated
+   right-hand side - evaluated BEFORE setup(), in the order of the declarations - only when the right-hand side
+   is constant (is_const: _eval_const succeeded) and name-free (_expr_has_name); otherwise the global gets its
+   type's default value and the assignment stays where it is in setup().  Names first bound inside a block are
+   promoted with a default value (no initialiser to get wrong) and are not listed.
+   [closed_only = false] is the variant without the name-free test: it exists to show that the test is forced. *)
+Inductive ginit := GStatic (e : pexpr) | GDefault.
+Definition is_cval {A} (r : cr A) : bool := match r with CVal _ => true | _ => false end.
+Definition globals := list (ident * ginit).
+
+(* result: dict, store, globals in declaration order, residual body of setup(), ghost flag of the environment
+   model (as in tblock), ghost flag of the split: no variable named like a builtin the evaluator interprets, every
+   hoisted expression inside in_guard, and a hoisted name is not written by an earlier statement (given that the
+   name is not yet declared this only happens to a name used earlier as a for-loop variable, which C scopes to
+   the loop) *)
+Definition ttres := option (tenv * store * globals * list stmt * bool * bool).
+Definition gsplit (closed_only : bool) (s : stmt) (te : tenv) (st : store) (seen : list ident) (r1 : list stmt)
+  : globals * list stmt * bool :=
+  match s with
+  | SAssign x e =>
+      let c := view st te in
+      if bound x te then ([], r1, true)                  (* already declared: a plain run-time assignment *)
+      else if is_cval (eval_const c e) && (negb closed_only || negb (has_name e))
+           then ([(x, GStatic e)], [],
+                 negb (binds_safe_name c) && in_guard [] e && negb (tmem x seen) && negb (tmem x safe_name_references))
+           else ([(x, GDefault)], r1, true)
+  | _ => ([], r1, true)
+  end.
+Fixpoint ttop_gen (closed_only : bool) (b : list stmt) (te : tenv) (st : store) (seen : list ident) {struct b} : ttres :=
+  match b with
+  | [] => Some (te, st, [], [], true, true)
+  | s :: r =>
+      match tstep s te st with
+      | Some (te1, st1, r1, f1) =>
+          let '(g1, body1, h1) := gsplit closed_only s te st seen r1 in
+          (* names written so far (the residual writes what the source writes) *)
+          match ttop_gen closed_only r te1 st1 (writes s ++ writes_block r1 ++ seen) with
+          | Some (te2, st2, g2, body2, f2, h2) => Some (te2, st2, g1 ++ g2, body1 ++ body2, f1 && f2, h1 && h2)
+          | None => None end
+      | None => None end
+  end.
+Definition ttop := ttop_gen true.
+
+(* the static initialisers run first, in declaration order, each in the environment of the earlier globals *)
+Fixpoint static_inits (gs : globals) : list stmt :=
+  match gs with
+  | [] => []
+  | (x, GStatic e) :: r => SAssign x e :: static_inits r
+  | (_, GDefault) :: r => static_inits r
+  end.
+Definition sketch_outputs_gen (closed_only : bool) (p : list stmt) (orc : list nat) : option (list pval) :=
+  match ttop_gen closed_only p [] [] [] with
+  | Some (_, _, gs, body, _, _) =>
+      match rblock (static_inits gs ++ body) orc [] with Some (_, out, _) => Some out | None => None end
+  | None => None end.
+Definition sketch_outputs := sketch_outputs_gen true.
+Definition split_ok (p : list stmt) : bool :=
+  match ttop p [] [] [] with Some (_, _, _, _, f, h) => f && h | None => false end.
